@@ -349,6 +349,7 @@ func init() {
 		}
 		k := gen.DefaultKnobs()
 		k.PSave = 40
+		k.PWorldOddPlaces = 5
 		k.PCall = 2
 		k.PSendAll = 20
 		k.MinStmts = 2
